@@ -269,25 +269,50 @@ def component (links : List (Port × Port)) : Nat → List DPort → List DPort
 def connected (links : List (Port × Port)) (p q : DPort) : Bool :=
   p == q || (component links (links.length + 1) [p]).contains q
 
-/-- `LinkFaithful`: two listed ports carry the same name iff an edge of the HUGR joins them
-    (transitively).  Each entry is compared with the entries after it. -/
-def linkFaithfulFrom (links : List (Port × Port)) : List Entry → Bool
+/-- the listing grouped by link name (groups and members in order of first occurrence) -/
+def addToGroup (e : Entry) : List (String × List Entry) → List (String × List Entry)
+  | [] => [(e.name, [e])]
+  | (nm, es) :: rest => if nm == e.name then (nm, es ++ [e]) :: rest else (nm, es) :: addToGroup e rest
+
+def groupByName (listing : List Entry) : List (String × List Entry) :=
+  listing.foldl (fun gs e => addToGroup e gs) []
+
+/-- a name group with the connected component of its first port -/
+structure Group where
+  name : String
+  entries : List Entry
+  comp : List DPort
+
+def groups (links : List (Port × Port)) (listing : List Entry) : List Group :=
+  (groupByName listing).map fun (nm, es) =>
+    ⟨nm, es, match es with
+      | [] => []
+      | e :: _ => component links (links.length + 1) [e.port]⟩
+
+/-- no later group lies in the component of an earlier one -/
+def groupsApart : List Group → Bool
   | [] => true
-  | e :: rest =>
-    let comp := component links (links.length + 1) [e.port]
-    rest.all (fun f => (e.name == f.name) == (e.port == f.port || comp.contains f.port))
-      && linkFaithfulFrom links rest
+  | g :: rest =>
+    rest.all (fun h => match h.entries with
+      | [] => true
+      | e :: _ => !g.comp.contains e.port) && groupsApart rest
+
+/-- `LinkFaithful`: two listed ports carry the same name iff an edge of the HUGR joins them
+    (transitively).  Connectivity is an equivalence, so this is decided per name: all ports carrying a name
+    lie in the component of the first of them (same name ⇒ joined), and the components of different names
+    are different (joined ⇒ same name). -/
+def linkFaithful (gs : List Group) : Bool :=
+  gs.all (fun g => g.entries.all fun e => g.comp.contains e.port) && groupsApart gs
 
 def dedup {α : Type} [BEq α] : List α → List α
   | [] => []
   | x :: xs => if (dedup xs).contains x then dedup xs else x :: dedup xs
 
 /-- `NoHyperedge` (import.rs `link_ports`): no name with ≥ 2 producer-side and ≥ 2 consumer-side ports -/
-def noHyperedge (listing : List Entry) : Bool :=
-  (dedup (listing.map (·.name))).all fun nm =>
-    let here := listing.filter (·.name == nm)
-    let prod := dedup ((here.filter (·.producer)).map (·.port))
-    let cons := dedup ((here.filter (! ·.producer)).map (·.port))
+def noHyperedge (gs : List Group) : Bool :=
+  gs.all fun g =>
+    let prod := dedup ((g.entries.filter (·.producer)).map (·.port))
+    let cons := dedup ((g.entries.filter (! ·.producer)).map (·.port))
     !(prod.length ≥ 2 && cons.length ≥ 2)
 
 /-! ### CallsResolve -/
@@ -385,11 +410,11 @@ def orderHints (s : St) (a : Acc) : Bool :=
 
 def verdicts (s : St) (m : Module) : List (String × Bool) :=
   let a := mirrorModule s m
-  let links := Store.linksList s
+  let gs := groups (Store.linksList s) a.listing
   [("RegionsMirror", a.mirror),
    ("PortsPerSignature", a.ports),
-   ("LinkFaithful", linkFaithfulFrom links a.listing),
-   ("NoHyperedge", noHyperedge a.listing),
+   ("LinkFaithful", linkFaithful gs),
+   ("NoHyperedge", noHyperedge gs),
    ("CallsResolve", callsResolve s (funcSymbolsRegion m.root) a.exported),
    ("OrderHints", orderHints s a),
    ("MetaCarried", a.metaOk)]
